@@ -158,6 +158,18 @@ var c08ArgLines = [][]string{
 	{"--server", "--sender", "--checksum-seed=x", "-r", ".", "ro/"},
 	{"--", "--server"},
 	{""},
+	// a value-taking option as the LAST line: its value is missing
+	{"--server", "--sender", "-r", ".", "ro/", "--exclude"},
+	{"--server", "--sender", "--filter"},
+	{"--server", "--include"},
+	{"--server", "--sender", "-r", "--info"},
+	{"--debug"},
+	{"--server", "--sender", "-e"},
+	{"--server", "-r", ".", "rw/", "--rsh"},
+	{"--server", "--sender", "-f"},
+	// many option lines, no positional argument at all
+	{"--server", "--sender", "-r", "-t", "-v"},
+	{"--server", "-r", "-l"},
 }
 
 func (c08) Generate(seed uint64, tier string, index int) any {
